@@ -8,6 +8,7 @@ import glob, json, os, re, shutil, subprocess, sys
 pid, out = sys.argv[1], sys.argv[2].rstrip("/")
 rnd = int(sys.argv[3]) if len(sys.argv) > 3 else 3
 root = os.path.dirname(os.path.dirname(os.path.abspath(__file__)))
+checkout = os.environ.get("CHECKOUT", root)  # framework checkout whose ./check is run (parallel intakes need one each)
 wt = os.environ.get("WT", f"/var/tmp/repo-intake-{pid}")
 env = dict(os.environ, WT=wt, BASE="main")
 existing = [int(re.search(r"-(\d+)$", d).group(1)) for d in glob.glob(os.path.join(root, "seeded", pid + "-*"))]
@@ -27,7 +28,7 @@ for src in sorted(glob.glob(out + "/[0-9]*")):
     if not conf.get("confirmed"):
         shutil.rmtree(dst); k -= 1
         print(f"  -> {src} NOT kept"); continue
-    q = subprocess.run([os.path.join(root, "tools", "mutant_check.sh"), os.path.join(dst, "patch.diff"), pid], cwd=root, env=env, stdout=subprocess.PIPE, stderr=subprocess.STDOUT, text=True)
+    q = subprocess.run([os.path.join(checkout, "tools", "mutant_check.sh"), os.path.join(dst, "patch.diff"), pid], cwd=checkout, env=env, stdout=subprocess.PIPE, stderr=subprocess.STDOUT, text=True)
     res = q.stdout.strip().split("\n")[-1]
     print("  check:", res[:300], flush=True)
     caught = "VIOLATION" if re.search(r"violations=[1-9]", res) else ("machinery-error" if "exit=2" in res else "missed")
